@@ -49,6 +49,8 @@ def script_of(plan):
         lg += " at %s" % plan["lperiod"]
     if plan.get("prefill"):
         lg += " reuse"      # the fixed directory of an earlier process, in which a log file of that name already exists
+    if plan.get("rotate"):
+        lg += " keep 2 cycle 0.5 size 0"     # rotation on: every rotated copy and every new main file starts with one header too
     L.append(lg + " flush 1.0")
     rule = plan["rule"]
     L.append("    log l1 on %s" % rule)
@@ -81,7 +83,7 @@ class C22(Check):
     components["stub"] = COMPONENTS["stub"] + ["file system (substrate.fs.SimFS, no faults)", "calendar (log directory name)"]
     assumptions = ["'update': at each logger run after the first a record is due iff some loggee was updated after the previous record in execution order (not stamp order)",
                    "the final log pass made when the logger is stopped counts as a logger run"]
-    required_probes = ["update-after-logger-same-tick", "same-value-update", "logger-period", "streak", "deck", "logger-restarted", "deck-empty-mapping", "deck-non-mapping-skipped", "reused-empty-file", "reused-content-file"]
+    required_probes = ["update-after-logger-same-tick", "same-value-update", "logger-period", "streak", "deck", "logger-restarted", "deck-empty-mapping", "deck-non-mapping-skipped", "reused-empty-file", "reused-content-file", "rotating-log"]
     quick_runs = 6000
     thorough_runs = 300000
     shrink_fields = ["hist0", "hist1"]
@@ -130,7 +132,7 @@ class C22(Check):
                 "restart": g.randint(1, max(1, ticks - 3)) if rule in ("always", "once", "never") and g.random() < 0.35 else None,
                 # an earlier process left a log file of the same name in the (reused) directory: empty (it died before its header
                 # reached the disk) or started (header and a record): only the empty one is a new file and gets a header
-                "prefill": g.choice([None, None, None, None, None, "empty", "empty", "content"])}
+                "prefill": g.choice([None, None, None, None, None, "empty", "empty", "content"]), "rotate": g.random() < 0.3}
 
     def execute(self, plan):
         out = Outcome()
@@ -164,6 +166,26 @@ class C22(Check):
             out.digest = tr.digest()
             return out
         files = fs.snapshot()
+        if plan.get("rotate"):
+            # with rotation only the header clause is judged here (C23 judges the records): every non-empty file of the log, the
+            # rotated copies included, starts with exactly one header
+            out.probe("rotating-log")
+            real_header = "text\t%s\tl1\n_time\t" % RULENAME[rule]
+            for pth, text in sorted(files.items()):
+                nm = pth.rsplit("/", 1)[-1]
+                if not (nm.startswith("l1") and nm.endswith(".txt")) or not text:
+                    continue
+                if text.startswith("OLDHEADER\n"):
+                    if "text\t" in text:
+                        out.violate("header", "rule %s: header" % rule, "file %s: a started file that was continued got a second header\n%r\n%s" % (nm, text[:200], script))
+                        break
+                    continue
+                if not text.startswith(real_header) or text.count("text\t") != 1:
+                    out.violate("header", "rule %s: header" % rule, "file %s does not start with exactly one header\n%r\n%s" % (nm, text[:200], script))
+                    break
+            out.digest = tr.digest()
+            out.state_digest = hashlib.sha256(repr((rule, sorted(files.items()))).encode()).hexdigest()[:16]
+            return out
         cands = sorted(p for p in files if p.endswith("/l1.txt"))
         text = files.get(cands[0]) if len(cands) == 1 else None
         fields = plan.get("fields")
